@@ -168,7 +168,7 @@ def _cb_empty(s, a):
 
 
 class Evt:
-    def met(self) -> float: ...
+    def met(self, unit: int = 1) -> float: ...      # a default to fill in: the follower edits the lambda it is given
     def jets(self) -> Iterable[Jet]: ...
 
     @func_adl_callback(_cb_md)
@@ -180,7 +180,7 @@ class Evt:
 
 @func_adl_callback(_cb_empty)
 class EvtC:
-    def met(self) -> float: ...
+    def met(self, unit: int = 2) -> float: ...
 
     @func_adl_callback(_cb_md)
     def jets(self) -> Iterable[Jet]: ...
@@ -527,7 +527,14 @@ class Runner:
     def _derive(self, o, si, ps):
         src = o["lam"]
         arg: Any = src
-        if o.get("prebuilt"):
+        if o.get("prebuilt") == "shared":
+            # the caller hands the SAME lambda tree to several operator calls (F52: it must stay the caller's)
+            if not hasattr(self, "_shared_lambdas"):
+                self._shared_lambdas = {}
+            if src not in self._shared_lambdas:
+                self._shared_lambdas[src] = self.build_ast(src)
+            arg = self._shared_lambdas[src]
+        elif o.get("prebuilt"):
             arg = self.build_ast(src)
         refs = self.refs()
         try:
@@ -1128,6 +1135,8 @@ def random_history(rng, n_ops: int) -> List[dict]:
                 o["prebuilt"] = True
                 if rng.random() < 0.4:
                     o["lam"] = rng.choice(JOINS)
+                elif rng.random() < 0.6:
+                    o["prebuilt"] = "shared"
             h.append(o)
         elif x < 0.42:
             h.append({"op": "md", "s": s, "val": rng.choice(MDVALS)})
